@@ -372,6 +372,10 @@ def main(argv):
                                 distinct=len(b["distinct"]), failures=len(b["failures"]),
                                 sample=b["sample"], errors=b["errors"][:3], labelled="bounded - never counted as proved"))
 
+    # an obligation that fails exactly on a LISTED known finding is a documented exception of the claim, not part of what
+    # is claimed proved: it is reported under coverage.known_finding_probes (and as KNOWN-FINDING line + assumption)
+    known_probes = [o for o in obligations if o.get("known_finding") and o["status"] != "discharged"]
+    obligations = [o for o in obligations if not (o.get("known_finding") and o["status"] != "discharged")]
     n_ob = len(obligations)
     n_dis = sum(1 for o in obligations if o["status"] == "discharged")
     lost = sorted(ledger - {o["name"] for o in obligations if o["status"] == "discharged"}) if ledger and only is None else []
@@ -394,6 +398,10 @@ def main(argv):
         for a in pdef.assumptions:
             if a not in assumptions:
                 assumptions.append(a)
+    for o in known_probes:
+        a = "EXCEPTION (known finding, the property does NOT hold there; everything else is claimed): " + o["known_finding"]
+        if a not in assumptions:
+            assumptions.append(a)
     common = getattr(mods[0], "ASSUMPTIONS", []) if mods else []
     for m in mods:
         for a in getattr(m, "ASSUMPTIONS", []):
@@ -431,6 +439,7 @@ def main(argv):
                     ("%d of %d obligations discharged; %d proofs undecided; bounded stand-ins listed under "
                      "'bounded'" % (n_dis, n_ob, len(proofs_undecided))),
         known_findings_matched=known_lines,
+        known_finding_probes=known_probes,
     )
     evidence = dict(property_id=prop, tier=tier, seed=seed, level=level, coverage=coverage,
                     assumptions=assumptions, wall_s=round(time.time() - t0, 2), violations=len(violations))
@@ -444,7 +453,7 @@ def main(argv):
               ev_total, time.time() - t0))
     for u in proofs_undecided:
         print("  UNDECIDED proof %s: %s" % (u["proof"], u["reason"].splitlines()[0][:300]))
-    for o in obligations:
+    for o in obligations + known_probes:
         if o["status"] != "discharged":
             print("  %s %s %s" % (o["status"].upper(), o["name"], o.get("detail", "")))
     for line in sorted(set(known_lines)):
